@@ -443,7 +443,7 @@ pub fn case_edge(scratch: &Path, meta: usize, id: &str, seed: u64, _len: usize, 
         let ex = r.real.exec(op);
         r.ops.push((false, op.clone()));
         r.stats.inc("edge.ops");
-        if let Outcome::Panic(msg) = &ex.outcome {
+        if let Outcome::Panic(msg) | Outcome::OpenPanic(msg) = &ex.outcome {
             let prop = if matches!(op, Op::Open(_) | Op::Reopen(_)) { "C10" } else { "C05" };
             r.violate(prop, format!("{}`{}` panicked: {}", tag, op.line(), msg));
             // the library object may be inconsistent after a panic: drop it
